@@ -110,12 +110,28 @@ func VerifReadSeekHistory() {
 		rss = append(rss, rs)
 		ms = append(ms, &refReader{content: content})
 	}
+	// pattern=<digits>: the kinds of the operations are fixed (1 = Read, 2 = Seek, first
+	// operation = most significant digit), their arguments stay symbolic: longer histories
+	// of one shape without the 2^steps factor
+	var kinds []int
+	for p := verifrt.Param("pattern", 0); p > 0; p /= 10 {
+		kinds = append([]int{p % 10}, kinds...)
+	}
+	if len(kinds) > 0 {
+		steps = len(kinds)
+	}
 	for s := 0; s < steps; s++ {
 		r := 0
 		if nreaders > 1 {
 			r = verifrt.Choose(nreaders)
 		}
-		if verifrt.Param("readonly", 0) == 0 && verifrt.Choose(2) == 0 {
+		doSeek := false
+		if len(kinds) > 0 {
+			doSeek = kinds[s] == 2
+		} else {
+			doSeek = verifrt.Param("readonly", 0) == 0 && verifrt.Choose(2) == 0
+		}
+		if doSeek {
 			whence := verifrt.Choose(3)
 			rng := verifrt.Param("offrange", 1<<40)
 			off := int64(verifrt.IntRange(-rng, rng))
